@@ -207,6 +207,38 @@ func checkC20(c *Ctx) {
 				okRB = false
 			}
 		}
+		// the previous configuration is still intact when it is put back: the new one is installed by replacing the
+		// pointer (a.config = conf), never by writing into the message the previous pointer refers to
+		if save != nil && len(f.Params) == 2 {
+			replaced := false
+			for _, st := range stores {
+				if st.Val == ssa.Value(f.Params[1]) {
+					if skip, _ := reach(f, nil, isInstr(save), isInstr(st), nil); !skip {
+						replaced = true
+					}
+				}
+			}
+			inPlace := ""
+			eachInstr(f, func(in ssa.Instruction) {
+				ci, ok := in.(ssa.CallInstruction)
+				if !ok {
+					return
+				}
+				for _, a := range ci.Common().Args {
+					v := a
+					if mi, isMI := v.(*ssa.MakeInterface); isMI {
+						v = mi.X
+					}
+					if ld, isLd := v.(*ssa.UnOp); isLd && ld.Op == token.MUL {
+						if o, fld, okf := fieldOwner(ld.X); okf && o == "assets.assets" && fld == "config" {
+							inPlace = calleeName(ci.Common())
+						}
+					}
+				}
+			})
+			r.Check(replaced && inPlace == "", "C20.3", "SetClientConf: the new configuration replaces the pointer; the previous message is not written to", f.Pos(), fnName(f), "a.config = conf must-pass before the save; a.config is handed to no call",
+				"the live message is rewritten in place ("+inPlace+") instead of being replaced: the pointer kept for the roll-back refers to that same message, so after a failed store the rejected configuration stays in effect in memory")
+		}
 		r.Check(okRB, "C20.3", "SetClientConf: a.config = previous pointer on the error edge of saveClientConf", f.Pos(), fnName(f), "store guarded by err != nil; value loaded before the assignment; must-pass on every error path",
 			"when storing the new ClientConf fails the new configuration stays in effect in memory although the file still holds the previous one")
 	}
